@@ -206,6 +206,16 @@ Fault gen_store_fault(Rng &r, const FontImage &fi) {
         f.kind = "SETBYTES"; f.a = {4, i64(hdr >> 24), 5, i64((hdr >> 16) & 0xFF), 6, i64((hdr >> 8) & 0xFF), 7, i64(hdr & 0xFF)};
         return f;
     }
+    if ((f.tag == "head" || f.tag == "hhea" || f.tag == "maxp") && r.chance(1, 2)) {
+        // the few fields of the metric tables the engine really reads: units per em, loca format, number of h-metrics, glyph count
+        size_t off = f.tag == "head" ? (r.chance(2, 3) ? 18 : 50) : f.tag == "hhea" ? 34 : 4;
+        if (off + 2 <= t.size()) {
+            unsigned old = be16(&t[off]); static const unsigned odd[] = {0, 1, 2, 15, 0x4001, 0x7FFF, 0x8000, 0xFFFF};
+            unsigned v = r.chance(1, 2) ? odd[r.below(8)] : (r.chance(1, 2) ? old + 1 : old - 1) & 0xFFFF;
+            f.kind = "SETBYTES"; f.a = {i64(off), i64(v >> 8), i64(off + 1), i64(v & 0xFF)}; f.nth = r.chance(1, 2) ? -1 : 0;
+            return f;
+        }
+    }
     if (f.tag == "cmap" && t.size() >= 12 && r.chance(1, 4)) {
         // one kind of subtable made unusable (format field overwritten) while the others stay valid: fonts that are left with
         // only a format-12 or only a format-4 mapping
